@@ -52,6 +52,63 @@ CLAIMED = {
         ref="DESIGN.md §5 C15",
         note=NOTE + "Exact integer arithmetic in the model; the code's f32 sums are exact on the integer-valued data the check drives it with. "
                     "clap argument parsing and float printing are not modelled (outputs are compared numerically)."),
+    "C01": dict(
+        text=("Proof: write-then-read for the byte-level model writer over ALL valid inputs (any chromosomes with distinct names, "
+              "sorted disjoint non-empty values, every items_per_slot ≥ 1, every fan-out ≥ 2, arbitrary zoom/summary areas): every "
+              "range query on the written bytes returns the input's values filtered and clipped, bit-identical; full-span read = "
+              "the input; chromosome table = first-appearance ids with the supplied sizes; section codec round trip up to 65535 "
+              "items. Correspondence: real writer (all option combinations incl. compression, passes, buffering, runtime, sources) "
+              "then real reader vs the model and an independent oracle, arbitrary finite f32 bit patterns."),
+        ref="DESIGN.md §5 C01",
+        note=NOTE + "zlib is a parameter of the model (inflate∘deflate = id assumed); theorem for little-endian, uncompressed images; "
+                    "zero-length values are outside the theorem's hypotheses — at position 0 / chromosome end they are a known finding (D5)."),
+    "C02": dict(
+        text=("Proof: write-then-read for the byte-level bigBed model writer over all valid inputs (start-sorted entries, overlapping / "
+              "nested / identical allowed, NUL-free rest, any items_per_slot ≥ 1 and fan-out ≥ 2): every query returns exactly the "
+              "entries passing the reader's inclusive filter, once, in stored order; record codec round trip. Correspondence: real "
+              "writer + reader vs model and oracle on overlapping / nested / duplicate / long-then-short layouts, rest fields with "
+              "UTF-8 columns, autoSql none / generated / custom (verbatim + field count), item count, chromosome table."),
+        ref="DESIGN.md §5 C02",
+        note=NOTE + "As C01; the (0,0) entry is the reader's padding marker (D5, excluded from the theorem's hypotheses)."),
+    "C03": dict(
+        text=("Proof: range query = filter-and-clip of the stored values through the index candidates (block spans cover their items), "
+              "per-base array routine (values()) against its specification, cache transparency after ANY history of accesses and any "
+              "clearing limit. Correspondence: sequences of interval and per-base queries on the boundary set against one reader "
+              "instance (plain, caching, fresh, fresh caching) vs model and oracle."),
+        ref="DESIGN.md §5 C03",
+        note=NOTE + "reopen() is exercised by fresh readers over the same bytes, not modelled separately."),
+    "C04": dict(
+        text=("Proof: with the repaired span rule every block span covers its entries for every start-sorted entry list and every "
+              "items_per_slot, hence a query through the index candidates returns every overlapping entry once, in stored order, and "
+              "nothing outside the inclusive filter (byte level: bed_query_bytes / bed_model_roundtrip); kernel-decided witnesses "
+              "that the rule as found misses entries (D2). Correspondence: long-then-short layouts with items_per_slot ∈ {1,2,3}, "
+              "block_size ∈ {2,3}, boundary queries, all reader modes; oracle: strictly overlapping ⊆ answer ⊆ touching."),
+        ref="DESIGN.md §5 C04",
+        note=NOTE),
+    "C06": dict(
+        text=("Proof: bigWig per-chromosome fold and cross-chromosome merge = count, Σlen, min, max, Σlen·v, Σlen·v² of all stored values; "
+              "bigBed: the sweep's segments carry exactly the coverage depth, and bases / sum / sum of squares / min / max accumulated "
+              "from them equal #covered bases (each once), Σdepth, Σdepth², extrema of the depth — for every start-sorted entry list; "
+              "witnesses for D3, D16, D17. Correspondence: get_summary / item_count of written files vs model and an independent "
+              "per-base recomputation, exactly representable values, both pass modes."),
+        ref="DESIGN.md §5 C06",
+        note=NOTE + "Exact arithmetic; IEEE rounding is not modelled (the check drives the code with values whose statistics are exact)."),
+    "C07": dict(
+        text=("Proof: for every resolution > 0 and every sorted value stream the tiler's records are in order, disjoint, at most one "
+              "resolution long, with exact covered bases, sum, sum of squares, min and max of the values inside their span, total "
+              "coverage preserved, and the tiler terminates; byte-level zoom range query returns every stored record meeting the "
+              "range; witnesses for D1 and D14. Correspondence: every stored level of written files (manual incl. unsorted / "
+              "duplicate / zero / >10 sizes, automatic, both passes, small items_per_slot) vs model and independent per-base oracle; "
+              "levels strictly increasing."),
+        ref="DESIGN.md §5 C07",
+        note=NOTE + "Which levels are stored is taken from the file (auto selection depends on compressed sizes); each stored level is judged."),
+    "C08": dict(
+        text=("Proof: the bigBed zoom path = flagged tiler over the sweep's depth segments; records are a faithful reduction of the "
+              "coverage depth (order, disjointness, length, covered bases, sum, min, max, every covered base in exactly one record) for "
+              "every start-sorted entry list and every flush pattern. Correspondence: as C07 over overlapping / nested / identical / "
+              "zero-length layouts; independent oracle from the per-base depth."),
+        ref="DESIGN.md §5 C08",
+        note=NOTE + "Sum of squares of the bed path is checked by correspondence + oracle; its theorem is the bigWig one (run3_sumsq) applied to squared depths."),
 }
 
 PENDING = ["C01", "C02", "C03", "C04", "C05", "C06", "C07", "C08", "C09", "C10", "C11", "C13", "C14", "C15", "C16",
